@@ -50,6 +50,7 @@ type cqlCase struct {
 	N      int               `json:"n"`
 	Head   []int             `json:"head"`
 	Elem   []int             `json:"elem"`
+	Ents   [][]int           `json:"ents"`
 }
 
 func bigOf(neg bool, mag []int) *big.Int {
@@ -480,6 +481,8 @@ func (r *cqlRun) collCase(c cqlCase) {
 		b    []byte
 		null bool
 	}
+	var mapnSame func(dest interface{}) bool
+	mapnPlain := false
 	var els []el
 	for _, e := range c.Elems {
 		b, null := elemBytes(e)
@@ -547,6 +550,92 @@ func (r *cqlRun) collCase(c cqlCase) {
 			}
 			return true
 		}
+	case "mapn":
+		// several entries: any order of the entries is admissible on the wire; the values must stay apart
+		codec, err = datacodec.NewMap(datatype.NewMap(datatype.Int, datatype.Varchar))
+		m := map[int32]*string{}
+		mv := map[int32]string{}
+		hasNull := false
+		for i := 0; i+1 < len(els); i += 2 {
+			k := *i32ptr(els[i].b)
+			if els[i+1].null {
+				m[k] = nil
+				hasNull = true
+			} else {
+				sv := string(els[i+1].b)
+				m[k] = &sv
+				mv[k] = sv
+			}
+		}
+		sources = []interface{}{m}
+		if !hasNull {
+			sources = append(sources, mv)
+		}
+		norm := func(x interface{}) (map[int32]string, bool) { // value "\x00nil" stands for a nil value
+			out := map[int32]string{}
+			rv := reflect.ValueOf(x)
+			for rv.IsValid() && (rv.Kind() == reflect.Ptr || rv.Kind() == reflect.Interface) {
+				if rv.IsNil() {
+					return nil, false
+				}
+				rv = rv.Elem()
+			}
+			if !rv.IsValid() || rv.Kind() != reflect.Map {
+				return nil, false
+			}
+			for _, k := range rv.MapKeys() {
+				kv, vv := k, rv.MapIndex(k)
+				for kv.Kind() == reflect.Ptr || kv.Kind() == reflect.Interface {
+					kv = kv.Elem()
+				}
+				for vv.IsValid() && (vv.Kind() == reflect.Ptr || vv.Kind() == reflect.Interface) && !vv.IsNil() {
+					vv = vv.Elem()
+				}
+				if !kv.IsValid() || !kv.CanInt() {
+					return nil, false
+				}
+				if !vv.IsValid() || vv.Kind() != reflect.String {
+					out[int32(kv.Int())] = "\x00nil"
+				} else {
+					out[int32(kv.Int())] = vv.String()
+				}
+			}
+			return out, true
+		}
+		wantNorm, _ := norm(m)
+		newDest = func() interface{} { var d map[int32]*string; return &d }
+		same = func(dest interface{}) bool {
+			g, ok := norm(dest)
+			return ok && reflect.DeepEqual(g, wantNorm)
+		}
+		mapnSame = same
+		mapnPlain = !hasNull
+	case "udt2":
+		udt, _ := datatype.NewUserDefined("ks", "t", []string{"a", "b"}, []datatype.DataType{datatype.Int, datatype.Int})
+		codec, err = datacodec.NewUserDefined(udt)
+		m := map[string]*int32{}
+		for i, name := range []string{"a", "b"} {
+			if els[i].null {
+				m[name] = nil
+			} else {
+				m[name] = i32ptr(els[i].b)
+			}
+		}
+		sources = []interface{}{m}
+		eq := func(d map[string]*int32) bool {
+			if len(d) != len(m) {
+				return false
+			}
+			for k, v := range m {
+				dv, ok := d[k]
+				if !ok || (dv == nil) != (v == nil) || (v != nil && *dv != *v) {
+					return false
+				}
+			}
+			return true
+		}
+		newDest = func() interface{} { var d map[string]*int32; return &d }
+		same = func(dest interface{}) bool { return eq(*dest.(*map[string]*int32)) }
 	case "tuple", "udt":
 		fields := []interface{}{}
 		if els[0].null {
@@ -624,6 +713,8 @@ func (r *cqlRun) collCase(c cqlCase) {
 			r.bad("C14", "coll-v2-null-accepted|"+c.Kind, fmt.Sprintf("%s: protocol v2 cannot express a null element but Encode returned % x", tag, b), c)
 		case c.Enc == "ok" && err != nil:
 			r.bad("C11,C14", "coll-encode-refused|"+c.Kind, fmt.Sprintf("%s (source form %d): %v", tag, si, err), c)
+		case c.Enc == "ok" && c.Kind == "mapn" && permutationOf(b, intsToB(c.Head), c.Ents):
+			r.distinct["coll-enc/"+tag] = true
 		case c.Enc == "ok" && !bytes.Equal(b, want):
 			r.bad("C12,C14", "coll-encode-bytes|"+c.Kind, fmt.Sprintf("%s (source form %d): encoded % x, specification % x", tag, si, b, want), c)
 		default:
@@ -648,8 +739,70 @@ func (r *cqlRun) collCase(c cqlCase) {
 			r.bad("C11,C14", "coll-decode-untyped-panic|"+c.Kind, tag+": "+p, c)
 		} else if err != nil {
 			r.bad("C11", "coll-decode-untyped-refused|"+c.Kind, fmt.Sprintf("%s: %v", tag, err), c)
+		} else if mapnSame != nil && !mapnSame(&x) {
+			r.bad("C11", "coll-decode-untyped-value|"+c.Kind, fmt.Sprintf("%s: % x decoded into an untyped destination as %s", tag, want, describeDeep(x)), c)
+		}
+		if mapnSame != nil && mapnPlain {
+			// the same map with plain (non-pointer) values
+			var d map[int32]string
+			if _, err, p := safeDecode(codec, want, &d, v); p != "" || err != nil || !mapnSame(&d) {
+				r.bad("C11", "coll-decode-value|mapn-plain", fmt.Sprintf("%s: % x decoded into map[int32]string as %v (err %v %s)", tag, want, d, err, p), c)
+			}
 		}
 	}
+}
+
+// permutationOf: b is head followed by the entries in some order.
+func permutationOf(b, head []byte, ents [][]int) bool {
+	if !bytes.HasPrefix(b, head) {
+		return false
+	}
+	rest := b[len(head):]
+	used := make([]bool, len(ents))
+	for len(rest) > 0 {
+		found := false
+		for i, e := range ents {
+			eb := intsToB(e)
+			if !used[i] && bytes.HasPrefix(rest, eb) {
+				used[i], found = true, true
+				rest = rest[len(eb):]
+				break
+			}
+		}
+		if !found {
+			return false
+		}
+	}
+	for _, u := range used {
+		if !u {
+			return false
+		}
+	}
+	return true
+}
+
+// describeDeep prints a decoded value with its pointers followed.
+func describeDeep(x interface{}) string {
+	rv := reflect.ValueOf(x)
+	for rv.IsValid() && (rv.Kind() == reflect.Ptr || rv.Kind() == reflect.Interface) && !rv.IsNil() {
+		rv = rv.Elem()
+	}
+	if rv.IsValid() && rv.Kind() == reflect.Map {
+		out := []string{}
+		for _, k := range rv.MapKeys() {
+			kv, vv := k, rv.MapIndex(k)
+			for (kv.Kind() == reflect.Ptr || kv.Kind() == reflect.Interface) && !kv.IsNil() {
+				kv = kv.Elem()
+			}
+			for (vv.Kind() == reflect.Ptr || vv.Kind() == reflect.Interface) && !vv.IsNil() {
+				vv = vv.Elem()
+			}
+			out = append(out, fmt.Sprintf("%v:%v", kv, vv))
+		}
+		sort.Strings(out)
+		return fmt.Sprintf("%T{%s}", x, strings.Join(out, " "))
+	}
+	return fmt.Sprintf("%#v", x)
 }
 
 func compactJSON(raw []json.RawMessage) string {
